@@ -38,12 +38,36 @@ func checkC04(c *Ctx) {
 
 	// ---- R1 -------------------------------------------------------------------------
 	nTrue, nFalse := 0, 0
-	for _, b := range liveBlocks(vf) {
-		ret, ok := b.Instrs[len(b.Instrs)-1].(*ssa.Return)
-		if !ok || b == vf.Recover {
-			continue
+	// the returns that decide the verdict: those of the validation function, and - where it hands
+	// on the verdict of a function called from this one place (its body split into phases) - those
+	// of that function
+	type vret struct {
+		ret *ssa.Return
+		v   ssa.Value
+	}
+	var rets []vret
+	var collect func(g *ssa.Function, idx int, depth int)
+	collect = func(g *ssa.Function, idx int, depth int) {
+		for _, b := range liveBlocks(g) {
+			ret, ok := b.Instrs[len(b.Instrs)-1].(*ssa.Return)
+			if !ok || b == g.Recover || idx >= len(ret.Results) {
+				continue
+			}
+			v := returnValue(ret, idx)
+			if ex, isEx := v.(*ssa.Extract); isEx && depth < 4 {
+				if call, isCall := ex.Tuple.(*ssa.Call); isCall {
+					if h := call.Call.StaticCallee(); h != nil && h != g && m.isLib(h) && len(m.callers[h]) == 1 && h.Blocks != nil {
+						collect(h, ex.Index, depth+1)
+						continue
+					}
+				}
+			}
+			rets = append(rets, vret{ret, v})
 		}
-		v := returnValue(ret, 0)
+	}
+	collect(vf, 0, 0)
+	for _, r := range rets {
+		ret, v := r.ret, r.v
 		if k, isC := constBool(v); isC && !k {
 			nFalse++
 			continue
@@ -54,7 +78,7 @@ func checkC04(c *Ctx) {
 			c.undecided("R1", key, ret, "the verdict is a computed value (%s), not a constant: it cannot be tied to the checks that dominate it", m.Sym.Of(v))
 			continue
 		}
-		gs := m.Guards(b)
+		gs := m.unitGuardsSubst(vf, ret)
 		need := map[string]bool{}
 		for _, l := range gs {
 			s := l.S
@@ -102,7 +126,7 @@ func checkC04(c *Ctx) {
 		}
 		c.check(len(missing) == 0, "R1", key, ret, "missing on the way to `return true`: %v (guards: %s)", missing, clip(fmtLits(gs), 700))
 	}
-	c.check(nTrue == 1 && nFalse >= 8, "R1", "every other return of "+vn+" yields false", firstInstr(vf), "%d returns with a non-false verdict, %d returns of constant false", nTrue, nFalse)
+	c.check(nTrue == 1 && nFalse >= 1, "R1", "every other return of "+vn+" yields false", firstInstr(vf), "%d returns with a non-false verdict, %d returns of constant false", nTrue, nFalse)
 
 	// ---- R2 -------------------------------------------------------------------------
 	if api := m.method("ValidateToken"); api != nil {
